@@ -7,6 +7,8 @@
 #include <stdlib.h>
 #include <string.h>
 #include <stdint.h>
+#include <signal.h>
+#include <unistd.h>
 #include "a/list.h"
 #include "a/slist.h"
 #include "a/que.h"
@@ -23,6 +25,12 @@ static void on_death(void)
 {
     fprintf(stdout, "CRASH {\"edge\":%ld,%s}\n", n_edges, cur_desc);
     fflush(stdout);
+}
+static void on_abort(int sig)
+{
+    (void)sig;
+    on_death(); /* UBSan (abort_on_error=1) raises SIGABRT without running the death callback */
+    _exit(97);
 }
 
 static int parse_ints(char const *s, int *out, int max)
@@ -447,6 +455,7 @@ int main(int argc, char **argv)
         return 2;
     }
     __sanitizer_set_death_callback(on_death);
+    signal(SIGABRT, on_abort);
     f_install();
     if (argc > 6)
     {
